@@ -37,7 +37,9 @@ pub const BUILTINS: &[&str] = &[
 ];
 /// boundary argument values
 pub const ARGS: &[&str] = &[
-    "-1", "0", "1", "3", "2147483647", "-2147483648", "1/2", "-7/2", "-2147483648/3", "2147483647/2", "1/2147483647", "1.5", "-0.0", "1e38", "\"\"", "\"s\"", "#\\a", "'a", "'()", "'(1 2)", "'(1 . 2)", "'((1) (2))", "(vector)", "(vector 1 2)", "'#(1)",
+    "-1", "0", "1", "3", "2147483647", "-2147483648", "1/2", "-7/2", "-2147483648/3", "2147483647/2", "1/2147483647", "(/ 0. 0.)", "(/ 1. 0.)", "(- (/ 1. 0.))",
+    // long values (messages quote their operands): multi-byte characters at every byte offset parity
+    "\"aéééééééééééééééééééééééééééééééééééééééééééééééé\"", "\"éééééééééééééééééééééééééééééééééééééééééééééééééé\"", "'(1 2 3 4 5 6 7 8 9 10 11 12 13 14 15 16 17 18 19 20 21 22 23 24 25 26 27 28 29 30 λλλλλλλλλλ)", "'|ééééééééééééééééééééééééééééééééééééééééééééééééééééééééééééééééé|", "1.5", "-0.0", "1e38", "\"\"", "\"s\"", "#\\a", "'a", "'()", "'(1 2)", "'(1 . 2)", "'((1) (2))", "(vector)", "(vector 1 2)", "'#(1)",
     "car", "(lambda (p) p)", "(lambda (p q) (list p q))", "#t", "#f",
 ];
 
